@@ -1,8 +1,8 @@
 (* C03 — Allocations honour the replication factors and use only healthy peers.
-   Statements only; every proof is `exact <lemma of Proofs/C03_Alloc.v>`.
+   Statements only; every proof is `exact <lemma of Proofs/C03_{Alloc,Monitor,Frame}.v>`.
    Quantification: every time `now`, every input (factors, current, metrics one per peer,
    exclusion and priority lists, strategy) and every iteration order `ord` of the Go map. *)
-From V Require Import Base.Common Model.C03_Alloc Model.C03_Check Proofs.C03_Alloc Proofs.C03_Monitor.
+From V Require Import Base.Common Model.C03_Alloc Model.C03_Check Proofs.C03_Alloc Proofs.C03_Monitor Proofs.C03_Frame.
 From Coq Require Import Permutation Sorting.Sorted.
 Open Scope Z_scope.
 
@@ -136,3 +136,36 @@ Proof. cbv zeta. split; [|split; [|split]].
   - simpl; repeat constructor; simpl; tauto.
   - unfold valid_factors; simpl; lia.
   - repeat split; vm_compute; reflexivity. Qed.
+
+(* ---- frame: what cannot influence the decision ("healthy peers only" read as non-interference) ----
+   The metric of a peer that is unhealthy at `now` (invalid or expired), or that is excluded, is dead input:
+   dropping all such metrics, or adding any number of them, leaves the result list / error unchanged,
+   for every order oracle (no hypothesis on ord, factors, or one-metric-per-peer is needed). *)
+Theorem alloc_ignores_discarded now i ord :
+  allocate now (with_metrics i (latest_valid now (metrics i))) ord = allocate now i ord.
+Proof. exact (alloc_ignores_discarded_l now i ord). Qed.
+Print Assumptions alloc_ignores_discarded.
+
+Theorem alloc_ignores_excluded now i ord :
+  allocate now (with_metrics i (filter (not_excluded i) (metrics i))) ord = allocate now i ord.
+Proof. exact (alloc_ignores_excluded_l now i ord). Qed.
+Print Assumptions alloc_ignores_excluded.
+
+Theorem alloc_frame now i ord extra :
+  (forall m, In m extra -> discard now m = true \/ memN (mpeer m) (blacklist i) = true) ->
+  allocate now (with_metrics i (extra ++ metrics i)) ord = allocate now i ord.
+Proof. exact (alloc_frame_l now i ord extra). Qed.
+Print Assumptions alloc_frame.
+
+(* non-vacuity: the extra metrics are of the kinds the theorem speaks of (one expired, one invalid, one of an excluded peer
+   with the best value), the decision is a real allocation, and a healthy non-excluded extra metric WOULD change it *)
+Example alloc_frame_example :
+  let i := mk_input 2 2 [1%N] [mk_metric 1 (Some 70%N) 3600 true; mk_metric 2 (Some 10%N) 3600 true;
+                              mk_metric 5 (Some 30%N) 3600 true] [9%N] [] false in
+  let extra := [mk_metric 7 (Some 1%N) 5 true; mk_metric 8 (Some 1%N) 3600 false; mk_metric 9 (Some 0%N) 3600 true] in
+  (forall m, In m extra -> discard 10 m = true \/ memN (mpeer m) (blacklist i) = true) /\
+  allocate 10 i (fun l => l) = Ok [1; 2]%N /\
+  allocate 10 (with_metrics i (extra ++ metrics i)) (fun l => l) = Ok [1; 2]%N /\
+  allocate 10 (with_metrics i (mk_metric 6 (Some 1%N) 3600 true :: metrics i)) (fun l => l) = Ok [1; 6]%N.
+Proof. cbv zeta. split; [|repeat split; vm_compute; reflexivity].
+  intros m [<-|[<-|[<-|[]]]]; vm_compute; auto. Qed.
